@@ -29,6 +29,8 @@ struct Obs {
     ok_sends: Vec<Vec<u8>>,
     send_err: Option<String>,
     extra_err: Option<String>,
+    /// result of a try_send issued once the close / drop was observable
+    try_err: Option<String>,
     closed_resolved: bool,
     is_closed_flag: Option<bool>,
     received: Vec<Vec<u8>>,
@@ -122,6 +124,12 @@ impl Scenario for PortCloseScenario {
                     let mut o = o3.lock().unwrap();
                     o.closed_resolved = true;
                     o.is_closed_flag = Some(tx.is_closed());
+                }
+                // the non-waiting variant first: it must be refused as well, with the same classification
+                match tx.try_send(&payload(98, 1)) {
+                    Ok(()) => o3.lock().unwrap().try_err = Some("ok".into()),
+                    Err(chmux::TrySendError::Full) => o3.lock().unwrap().try_err = Some("full".into()),
+                    Err(chmux::TrySendError::Send(e)) => o3.lock().unwrap().try_err = Some(classify(&e)),
                 }
                 match tx.send(payload(99, 1)).await {
                     Ok(()) => o3.lock().unwrap().extra_err = Some("ok".into()),
@@ -250,6 +258,11 @@ impl Scenario for PortCloseScenario {
                         if cls.as_deref() != Some("closed-gracefully") {
                             v.fail("C11", "wrong-classification-on-close", format!("send after close() failed with {cls:?}, expected closed-gracefully"));
                         }
+                        if let Some(t) = &o.try_err {
+                            if t != "closed-gracefully" {
+                                v.fail("C11", "try-send-after-close-not-refused", format!("try_send after the close was observable returned {t}, expected closed-gracefully"));
+                            }
+                        }
                         if !o.closed_resolved || o.is_closed_flag != Some(true) {
                             v.fail("C11", "close-not-observable", format!("closed() resolved {} is_closed {:?}", o.closed_resolved, o.is_closed_flag));
                         }
@@ -261,6 +274,11 @@ impl Scenario for PortCloseScenario {
                         let cls = o.send_err.clone().or(o.extra_err.clone());
                         if cls.as_deref() != Some("closed-dropped") {
                             v.fail("C11", "wrong-classification-on-drop", format!("send after receiver drop failed with {cls:?}, expected closed-dropped"));
+                        }
+                        if let Some(t) = &o.try_err {
+                            if t != "closed-dropped" {
+                                v.fail("C11", "try-send-after-drop-not-refused", format!("try_send after the receiver drop was observable returned {t}, expected closed-dropped"));
+                            }
                         }
                         if !o.closed_resolved {
                             v.fail("C11", "drop-not-observable", "closed() did not resolve".to_string());
